@@ -192,6 +192,7 @@ template<typename C> static void overload_hash(C& c, int n, int64_t base);
 struct AdHashSet : NatSet<NHashSet, E>
 {
 	static NHashSet make(int id) { return NHashSet(HTraits(), MM(id)); }
+	static std::vector<const void*> handles(const NHashSet& c) { return { c.mCrew.mData, c.mBuckets, (const void*)c.mCount, (const void*)c.mCapacity }; }
 	static std::string structure(const NHashSet& c) { return hash_structure(c); }
 	static bool find(const NHashSet& c, int64_t v) { return c.ContainsKey(E(v)); }
 	static void unusual(NHashSet& c, char kind, int n);
@@ -199,6 +200,7 @@ struct AdHashSet : NatSet<NHashSet, E>
 struct AdTreeSet : NatSet<NTreeSet, E>
 {
 	static NTreeSet make(int id) { return NTreeSet(TTraits(), MM(id)); }
+	static std::vector<const void*> handles(const NTreeSet& c) { return { c.mCrew.mData, c.mRootNode, c.mNodeParams, (const void*)c.mCount }; }
 	static std::string structure(const NTreeSet& c) { return tree_structure(c); }
 	static void merge(NTreeSet& dst, NTreeSet& src) { dst.MergeFrom(src); }
 	static bool pools_ok(const NTreeSet& c, std::string& w) { return tree_pools_own_nodes(c, w); }
@@ -317,6 +319,7 @@ struct AdTable
 	typedef NTable Cont; typedef Cont C; static const bool crew = true, multi = false, alloc_move_ctor = false, is_stdish = false;
 	// one unique hash index (k) and one multi hash index (g = k % 3): rebuilt by a copy, stolen by a move
 	static C make(int id) { C t{TColumns(MM(id))}; t.AddUniqueHashIndex(k); t.AddMultiHashIndex(g); return t; }
+	static std::vector<const void*> handles(const C& c) { return { c.mCrew.mData, c.mRaws.GetItems(), &const_cast<C&>(c).mRawMemPool.GetMemManager().GetBaseMemManager() }; }
 	static void ins(C& c, int64_t x)
 	{
 		NTable::Row row = c.NewRow(); row[k] = x; row[g] = (x / 3) % 3; row[v] = E(x + 7);
@@ -614,6 +617,8 @@ void AdUMap::unusual(SUMap& c, char kind, int n) { if (kind == 'g' || kind == 'h
 // ------------------------------------------------------------------------------------------- generic driver
 template<typename Ad, typename = void> struct HasInline : std::false_type {};
 template<typename Ad> struct HasInline<Ad, std::void_t<decltype(Ad::inline_crew)>> : std::true_type {};
+template<typename Ad, typename = void> struct HasHandles : std::false_type {};
+template<typename Ad> struct HasHandles<Ad, std::void_t<decltype(&Ad::handles)>> : std::true_type {};
 template<typename Ad, typename = void> struct HasMerge : std::false_type {};
 template<typename Ad> struct HasMerge<Ad, std::void_t<decltype(&Ad::merge)>> : std::true_type {};
 struct Case { std::string kind, op, ss, ts, post, sst, tst, est; int sid, tid, aid; };
@@ -657,6 +662,7 @@ template<typename Ad> static void run_case(const Case& cs, FILE* out)
 		std::unique_ptr<C> Tp(new C(Ad::make(cs.tid)));
 		build<Ad>(*Tp, cs.ts, 200000);
 		const Vals s0 = Ad::contents(S), t0 = Ad::contents(*Tp);
+		std::vector<const void*> hS, hT; if constexpr (HasHandles<Ad>::value) { hS = Ad::handles(S); hT = Ad::handles(*Tp); }
 		if (cs.op == "describe") { fprintf(out, "S:%s T:%s | orc=ok\n", Ad::structure(S).c_str(), Ad::structure(*Tp).c_str()); return; }
 		if (cs.sst != "*" && Ad::structure(S) != cs.sst) fail("source-structure-is-" + Ad::structure(S) + "-not-the-token");
 		if (cs.tst != "*" && Ad::structure(*Tp) != cs.tst) fail("target-structure-is-" + Ad::structure(*Tp) + "-not-the-token");
@@ -703,6 +709,13 @@ template<typename Ad> static void run_case(const Case& cs, FILE* out)
 			bool keycopies_allowed = (cs.kind == "ummap" && sId != -1);     // element-wise path copies const keys
 			if (dc != 0 && !keycopies_allowed && kMovable) fail("move-copied-elements");
 			if (sId != -1 && Ad::crew && !HasInline<Ad>::value && !s0.empty() && dm < s0.size()) fail("elementwise-move-did-not-move-each-element");
+		}
+		if constexpr (HasHandles<Ad>::value)
+		{
+			// the raw ownership handles (crew pointer, storage pointers, the manager the raw pool uses): Swap / merge-swap exchange ALL
+			// of them, move construction / move assignment hand ALL of them to the target (theorems about the generated Swap / MoveCtor)
+			if (op == "swap" && (Ad::handles(T) != hS || Ad::handles(S) != hT)) fail("swap-left-a-handle-behind");
+			if ((op == "movec" || op == "movea") && Ad::handles(T) != hS) fail("move-did-not-take-every-handle");
 		}
 		if (op == "swap") { if (tc != s0 || sc != t0) fail("swap-not-exact"); if (dc != 0 && kMovable) fail("swap-copied-elements"); }
 		if (self) { if (sc != s0) fail("self-op-changed-contents"); if (dc != 0 && op != "selfcopya" && kMovable) fail("self-op-copied"); if (sId != cs.sid) fail("self-op-changed-manager"); }
